@@ -143,3 +143,24 @@ def all_shadings(k):
     for r in range(len(cells) + 1):
         for c in itertools.combinations(cells, r):
             yield frozenset(c)
+
+
+# ---- mesh pattern inside mesh pattern (by the region semantics above) ----------------------
+def as_mesh(q):
+    """plain classical tuple -> unshaded mesh pattern"""
+    if isinstance(q, tuple) and len(q) == 2 and isinstance(q[1], (set, frozenset)):
+        return q
+    return (tuple(q), frozenset())
+
+
+def occurrences_in_mesh(P, Q):
+    (p, S), (q, T) = as_mesh(P), as_mesh(Q)
+    out = []
+    for occ in C.occurrences(p, q):
+        if S <= induced(q, T, occ)[1]:
+            out.append(occ)
+    return out
+
+
+def mesh_contains_mesh(Q, P):
+    return bool(occurrences_in_mesh(P, Q))
